@@ -217,7 +217,7 @@ def build(node, env=None, path='r'):
     if op == 'nonemap':
         return done(ds.map(env.fn(path, functools.partial(progs.f_none, node['m'], node['r']))))
     if op == 'filter':
-        pred = progs.f_pred_int if node.get('int') else progs.f_pred
+        pred = progs.f_pred_seq if node.get('int') == 'seq' else progs.f_pred_int if node.get('int') else progs.f_pred
         return done(ds.filter(env.fn(path, functools.partial(pred, node['m'], node['r'])), lazy=node['lazy']))
     if op == 'slice':
         form = make_form(node['form'])
